@@ -149,7 +149,9 @@ TEXT = {
                    "declared node left without value); rounds that define units only, custom units as the "
                    "*target* of a conversion, none assigned last to a declared node that has had a value, a declared node copied by "
                    "an import before it has a value, the parser used as a context manager and asked to "
-                   "parse after its block, accessors read in both orders of formats; one run in 40 is a "
+                   "parse after its block, accessors read in both orders of formats; typed assignments whose "
+                   "value is written as an expression (zero results included); integer nodes must hold "
+                   "integers exactly, integers beyond 2**53 in 64-bit nodes; one run in 40 is a "
                    "marathon (up to 24 rounds, texts of up to ~90 statements that mostly define: "
                    "environments of dozens of nodes). Oracles: commit/abort as predicted, names in order "
                    "of first appearance, type class / width / sign, unit and value (1e-12 relative).",
